@@ -454,7 +454,8 @@ static void on_fini(lp_id_t me, const struct gm_state *st)
 			    (unsigned long long)st->cnt, (unsigned long long)d);
 	} else {
 		OP("sfini %llu", (unsigned long long)me);
-		RE("sfini lp=%llu st=%llx cnt=%llu", (unsigned long long)me, (unsigned long long)d, (unsigned long long)st->cnt);
+		RE("sfini lp=%llu st=%llx cnt=%llu thr=%llu", (unsigned long long)me, (unsigned long long)d,
+		    (unsigned long long)st->cnt, (unsigned long long)gm_threshold(me));
 	}
 }
 
@@ -525,6 +526,7 @@ int main(int argc, char **argv)
 	GM.use_rng = argu(argc, argv, "rng", 1);
 	GM.mem_ops = argu(argc, argv, "mem", 1);
 	GM.t0_events = argu(argc, argv, "t0", 0);
+	GM.lib = argu(argc, argv, "lib", 0);
 	unsigned threads = argu(argc, argv, "threads", 2);
 	unsigned ckpt = argu(argc, argv, "ckpt", 3);
 	vperiod = argu(argc, argv, "period", 1000);
